@@ -278,6 +278,9 @@ class C05(Prop):
             out.count("baseline_differs_from_truth")
         conn = spec["conns"][0]
         for k, plan in enumerate(spec.get("plans", [])):
+            if lane.expired():
+                out.count("enumeration_truncated_by_budget")
+                break
             ps = self.plan_spec(spec, plan)
             ex = world.expand(ps)
             out.sim_time_ns += ex["stats"]["sim_time_ns"]
